@@ -231,7 +231,11 @@ Proof.
     unfold probe_ok, wprobe in Hp. destruct (wfs s' p) as [[c| |]|]; subst; split; intros; try discriminate; auto.
   - (* Isdir *) destruct r; inversion H; subst; try apply same_refl. split; [apply same_refl|].
     unfold probe_ok, wprobe in Hp. destruct (wfs s' p) as [[c| |]|]; subst; split; intros; try discriminate; auto.
-  - (* Makedirs *) destruct r; try discriminate H.
+  - (* Makedirs *)
+    assert (Hfail : r <> RUnit -> match wfs s p with Some _ => Some s | None => None end = Some s' ->
+              wfd s' = wfd s /\ (forall q, wfs s' q = wfs s q \/ wfs s q = None /\ wfs s' q = Some NDir /\ under q p = true) /\ (r = RUnit -> wfs s' p = Some NDir)).
+    { intros Hr Hs. destruct (wfs s p); inversion Hs; subst. split; [reflexivity|]. split; [auto|]. intros E. contradiction. }
+    destruct r; try (apply Hfail; [discriminate|exact H]).
     destruct (add_dirs (wfs s) (ancestors_or_self p) p) as [[c| |]|] eqn:Ep; try discriminate H. inversion H; subst. simpl.
     split; [reflexivity|]. split; [|intros _; exact Ep]. intros q.
     destruct (add_dirs_spec (ancestors_or_self p) (wfs s) q) as [E|[E1 [E2 E3]]]; [left; exact E|right].
@@ -263,7 +267,12 @@ Proof.
     destruct (wfs s p) as [[c| |]|] eqn:Ep; try discriminate; inversion H; subst; simpl.
     + split; [exists (NFile c); split; [reflexivity|discriminate]|auto].
     + split; [exists NLink; split; [reflexivity|discriminate]|auto].
-  - (* Rmtree *) destruct r; inversion H; subst; try apply same_refl. simpl. auto.
+  - (* Rmtree *)
+    assert (Hfail : match wfs s p with Some NDir => None | _ => Some s end = Some s' -> s' = s).
+    { intros Hs. destruct (wfs s p) as [[c| |]|]; inversion Hs; reflexivity. }
+    destruct r; try (rewrite (Hfail H); apply same_refl).
+    + inversion H; subst. simpl. auto.
+    + rewrite (Hfail H). split; [reflexivity|]. intros q. left. reflexivity.
 Qed.
 
 (* ---------------------------------------------------------------- a program logic over the world *)
